@@ -1384,6 +1384,11 @@ func (s *SSEServer) SendRequest(ctx context.Context, sessionID string, request *
 		return nil, fmt.Errorf("invalid session type")
 	}
 
+	// The request goes out as JSON-RPC 2.0 also when the caller left the version empty.
+	if request.JSONRPC == "" {
+		request.JSONRPC = JSONRPCVersion
+	}
+
 	// Generate unique request ID if not provided.
 	if request.ID == nil {
 		request.ID = s.requestID.Add(1)
